@@ -6,6 +6,7 @@ From Coq Require Import List NArith.
 From Goit Require Import Bytes Regex GoRegex Reflog Repo RegexFacts ReflogFacts.
 From Goit Require Import Obj Tree Index Commit World ExactFacts.
 From Goit Require Import Bridge.
+From Goit Require Import Inv Reflog BranchFacts SnapshotFacts RestoreFacts GateFacts ResetFacts.
 Import ListNotations.
 
 (* T0 (tie to the source): every regexp literal of the current Go source denotes
@@ -83,6 +84,78 @@ Theorem C08_hard_never_touches_other_files : forall e c mixed a w r w' tr q,
   (forall es, reset_entries w a = Some es -> ~ In q (IndexFacts.paths es)) -> file w' q = file w q.
 Proof. exact cmd_reset_hard_frame. Qed.
 
+(* ---------- Part 3: totality on every reachable repository ---------- *)
+(* In what follows the argument is [head_at n] = "HEAD@{" ++ decimal n ++ "}",
+   [rs] is the journal of the world as `reflog` reads it, and the record at
+   position n carries the commit id [tid].  That tid is then a stored commit
+   follows from reachability (ResetFacts.reachable_journal_ids). *)
+
+(* --soft: succeeds; the current branch moves to tid; HEAD, every other branch,
+   the staging area and the work tree are unchanged *)
+Theorem C08_reset_soft_total : forall e w c prev pc n hl rs r tid,
+  Reachable w -> w_coll w = false -> SmallStore (w_objs w) -> ctx_of w = Some c -> x_headc c = Some (prev, pc) ->
+  (n <= 9223372036854775807)%N -> w_hlog w = Some hl -> parse_reflog hl = Some rs ->
+  get_record rs (N.to_nat n) = Some r -> r_id r = Some tid -> forall mixed,
+  let a := head_at n in let tr := reset_head_trace e c w prev tid a in let w' := apply_effects tr w in
+  step (ACmd e (CReset true mixed false [a])) w = (w', OOk [], tr) /\
+  reset_common_post w tid w' /\ w_index w' = w_index w /\ same_wt w w'.
+Proof. exact reset_soft_total. Qed.
+
+(* --mixed (the default): additionally the staging area becomes tid's snapshot *)
+Theorem C08_reset_mixed_total : forall e w c prev pc n hl rs r tid,
+  Reachable w -> w_coll w = false -> SmallStore (w_objs w) -> ctx_of w = Some c -> x_headc c = Some (prev, pc) ->
+  (n <= 9223372036854775807)%N -> w_hlog w = Some hl -> parse_reflog hl = Some rs ->
+  get_record rs (N.to_nat n) = Some r -> r_id r = Some tid ->
+  exists es, snapshot (w_objs w) tid = Some es /\
+    let a := head_at n in let tr := reset_head_trace e c w prev tid a ++ [ESetIndex es] in let w' := apply_effects tr w in
+    step (ACmd e (CReset false true false [a])) w = (w', OOk [], tr) /\
+    reset_common_post w tid w' /\ idx_of w' = es /\ same_wt w w'.
+Proof. exact reset_mixed_total. Qed.
+
+(* --hard: additionally every file of the snapshot holds the committed bytes and
+   no other file is touched — provided the snapshot can be written to the work
+   tree (no file where a directory is needed, no directory at a snapshot path,
+   no snapshot path above another: each shown necessary by a witness) *)
+Theorem C08_reset_hard_total : forall e w c prev pc n hl rs r tid es,
+  Reachable w -> w_coll w = false -> SmallStore (w_objs w) -> ctx_of w = Some c -> x_headc c = Some (prev, pc) ->
+  (n <= 9223372036854775807)%N -> w_hlog w = Some hl -> parse_reflog hl = Some rs ->
+  get_record rs (N.to_nat n) = Some r -> r_id r = Some tid ->
+  snapshot (w_objs w) tid = Some es ->
+  (forall q, In q (IndexFacts.paths es) -> restorable w q) ->
+  (forall q1 q2, In q1 (IndexFacts.paths es) -> In q2 (IndexFacts.paths es) -> ~ In q1 (ancestors q2)) ->
+  forall mixed, let a := head_at n in
+  exists tr, let w' := apply_effects tr w in
+    step (ACmd e (CReset false mixed true [a])) w = (w', OOk [], tr) /\
+    reset_hard_result w tid es w' /\ reset_hard_post w tid es w' /\
+    Forall (fun ef => match ef with
+                      | ESetRef nm id => nm = w_head w /\ id = tid
+                      | ESetIndex i => i = es
+                      | EWriteFile q _ => In q (IndexFacts.paths es)
+                      | EAppendHlog _ | EAppendBlog _ _ | EMkdirAll _ => True
+                      | _ => False
+                      end) tr.
+Proof. exact reset_hard_total. Qed.
+
+(* malformed argument, no journal, position beyond the journal, or a record
+   without a commit id (the one `branch --rename` journals): refused, world
+   unchanged, in every mode *)
+Theorem C08_reset_refused_on_every_reachable_repository : forall e soft mixed hard a w,
+  Reachable w ->
+  reset_arg a = None \/
+  (exists n, a = head_at n /\
+     (w_hlog w = None \/ (9223372036854775807 < n)%N \/
+      exists hl rs, w_hlog w = Some hl /\ parse_reflog hl = Some rs /\
+        ((N.of_nat (length rs) <= n)%N \/ exists r, get_record rs (N.to_nat n) = Some r /\ r_id r = None))) ->
+  step (ACmd e (CReset soft mixed hard [a])) w = (w, OErr, []).
+Proof. exact reset_refused_on_reachable. Qed.
+
+(* every id recorded in the journal of a reachable repository is a stored commit *)
+Theorem C08_journal_ids_are_stored_commits : forall w hl rs,
+  Reachable w -> w_coll w = false -> SmallStore (w_objs w) ->
+  w_hlog w = Some hl -> parse_reflog hl = Some rs ->
+  Forall (fun r => forall id, r_id r = Some id -> commit_ok (w_objs w) id) rs.
+Proof. exact reachable_journal_ids. Qed.
+
 Print Assumptions C08_reset_arg_accepts.
 Print Assumptions C08_reset_arg_only.
 Print Assumptions C08_position_is_what_reflog_shows.
@@ -93,3 +166,8 @@ Print Assumptions C08_mixed_spec.
 Print Assumptions C08_hard_spec.
 Print Assumptions C08_hard_never_touches_other_files.
 Print Assumptions C08_source_patterns_are_the_models.
+Print Assumptions C08_reset_soft_total.
+Print Assumptions C08_reset_mixed_total.
+Print Assumptions C08_reset_hard_total.
+Print Assumptions C08_reset_refused_on_every_reachable_repository.
+Print Assumptions C08_journal_ids_are_stored_commits.
